@@ -439,9 +439,11 @@ structure Cfg where
   decoderResolvesRefs : Bool
   saveAfterEveryStepRequest : Bool   -- wave 3: see `stepReq`
   restoreKeepsClock : Bool           -- wave 6: see `setState`
+  compressIsPure : Bool              -- wave 8: see `saveSeq`
 deriving DecidableEq, Repr
 
-def Cfg.good (c : Cfg) : Bool := c.decoderResolvesRefs && c.saveAfterEveryStepRequest && c.restoreKeepsClock
+def Cfg.good (c : Cfg) : Bool :=
+  c.decoderResolvesRefs && c.saveAfterEveryStepRequest && c.restoreKeepsClock && c.compressIsPure
 
 def settingsJ (ident : Nat → Nat) : Stored → J
   | .plain s => encode (logPV ident s.settingsLog)
@@ -510,5 +512,24 @@ def roundTo (q t : Time) : Time := ((2 * t + q) / (2 * q)) * q
 
 def setState (c : Cfg) (s : Session) : Session :=
   if c.restoreKeepsClock then s else { s with step := roundTo centi s.step }
+
+/-! ### wave 8: compress / decompress are functions of ONE log
+
+The theorems above treat `compress_settings` as a pure function of the log it is given.  Mechanism fact
+`compressIsPure`: nothing of an earlier call is in a later result.  The defective variant collects the
+"dictionary without a value" entries `[step index, path]` in a process-level accumulator (a mutable default
+argument): every compressed state stores ALL entries collected so far in the process, so the entries of one
+session's log end up in the compressed state of every session saved afterwards — on load they create
+dictionaries at that step index in the other session, or the index does not exist there and the load fails.
+At the level of this model (rows = leaves) the extra empty dictionaries are invisible; what shows is the
+failed load.  `own` = the step indices of the log's own such entries. -/
+
+/-- the saves of one process in order (log, indices of its entries without a value) ↦ what each load returns -/
+def saveSeq (pure : Bool) : List Nat → List (Log × List Nat) → List (Option Log)
+  | _, [] => []
+  | acc, (log, own) :: r =>
+    let stored := if pure then own else acc ++ own
+    (if stored.all (· < log.length) then some (decompressSettings (compressSettings log)) else none)
+      :: saveSeq pure (acc ++ own) r
 
 end Bptk.C19
